@@ -64,7 +64,7 @@ def run(ctx):
     ac.setup(ctx)
     rng = ctx.rng
     dspecs = cases.gen_pool_specs(rng, ctx.scale(12, 30))
-    for _ in range(ctx.scale(110, 800)):
+    for _ in range(ctx.scale(110, 3000)):
         if ctx.out_of_time():
             break
         dspec = rng.choice(dspecs)
